@@ -12,7 +12,19 @@ using namespace vf;
 using namespace gates;
 static const int N = 1024;
 
-struct Env { const char *name; const LweParams *lp; const CK *ck; const LweKey *s; std::function<uint64_t()> keyhash; int n; };
+// "never written", not only "unchanged afterwards": with the guard allocator linked in, the key objects (every heap block allocated while the key
+// set was built) and the input objects are write-protected for the duration of the call; a transient write-and-restore of a shared key or input
+// (invisible to any snapshot, a data race for a second thread) faults.  Exempt: the gadget decomposition, which by design adds and removes its
+// offset in place on its const input (tGswTorus32PolynomialDecompH and its two callers that decompose a caller-owned sample).
+extern "C" { int vf_protect(const void *, int) __attribute__((weak)); int vf_protect_epoch(long, long, int) __attribute__((weak)); long vf_alloc_seq() __attribute__((weak)); int vf_guard_mode() __attribute__((weak)); }
+static bool freezing() { return vf_protect_epoch && vf_guard_mode && vf_guard_mode() > 0 && opt("freeze", "1") == "1"; }
+struct Epoch { long from = 0, to = 0; };
+struct Freeze { Epoch e; std::vector<const void *> blocks; bool on;
+    Freeze(const Epoch &ep, std::vector<const void *> b) : e(ep), blocks(std::move(b)), on(freezing()) { if (!on) return; vf_protect_epoch(e.from, e.to, 1); for (auto p : blocks) if (p) vf_protect(p, 1); stat_sum("frozen_calls", 1); }
+    ~Freeze() { if (!on) return; vf_protect_epoch(e.from, e.to, 0); for (auto p : blocks) if (p) vf_protect(p, 0); } };
+static long seq_now() { return vf_alloc_seq ? vf_alloc_seq() : 0; }
+static void warm_fft() { IntPolynomial *a = new_IntPolynomial(N); TorusPolynomial *b = new_TorusPolynomial(N), *r = new_TorusPolynomial(N); for (int i = 0; i < N; i++) { a->coefs[i] = 1; b->coefsT[i] = i; } torusPolynomialMultFFT(r, a, b); delete_IntPolynomial(a); delete_TorusPolynomial(b); delete_TorusPolynomial(r); }
+struct Env { Epoch ep; const char *name; const LweParams *lp; const CK *ck; const LweKey *s; std::function<uint64_t()> keyhash; int n; };
 static std::string genstate() { std::stringstream ss; ss << generator; return ss.str(); }
 static void fresh(const Env &E, LweSample *c, int bit, uint64_t &x) { // deterministic fresh-looking ciphertext: seeded mask, small seeded error
     uint32_t b = (uint32_t)(bit ? MU8 : -MU8) + (uint32_t)((int32_t)(splitmix(x) % 200001) - 100000);
@@ -50,7 +62,8 @@ static void gate_cases(const Env &E, bool all_rows) {
             bool rused = false; for (int q = 0; q < g.arity; q++) if (pat[q] == 'R') { if (!rused) lweCopy(r, x[eff[q]], E.lp); rused = true; }
             if (!rused) { for (int i = 0; i < E.n; i++) r->a[i] = 0x5a5a5a5a; r->b = 0x5a5a5a5a; }
             std::string before[3]; for (int q = 0; q < g.arity; q++) before[q] = bytes(arg[q], E.n);
-            apply(g, r, g.arity > 0 ? arg[0] : nullptr, g.arity > 1 ? arg[1] : nullptr, g.arity > 2 ? arg[2] : nullptr, bits[0], E.ck);
+            { std::vector<const void *> fr; for (int q = 0; q < g.arity; q++) if (pat[q] != 'R') { fr.push_back(arg[q]); fr.push_back(arg[q]->a); }
+              Freeze fz(E.ep, fr); apply(g, r, g.arity > 0 ? arg[0] : nullptr, g.arity > 1 ? arg[1] : nullptr, g.arity > 2 ? arg[2] : nullptr, bits[0], E.ck); }
             if (bytes(r, E.n) != want) violation(key, fmt("%s with aliasing pattern %s gives a different ciphertext than the call with distinct objects (decrypts to %d, plaintext %d)", g.name, pat.c_str(), lwePhase(r, E.s) > 0, g.truth(bits[eff[0]], g.arity > 1 ? bits[eff[1]] : 0, g.arity > 2 ? bits[eff[2]] : 0)));
             for (int q = 0; q < g.arity; q++) if (pat[q] != 'R' && bytes(arg[q], E.n) != before[q]) violation(key, fmt("%s modified its input #%d", g.name, q + 1));
             if (genstate() != gen0) violation(key, fmt("%s advanced the library random generator", g.name));
@@ -61,7 +74,7 @@ static void gate_cases(const Env &E, bool all_rows) {
 }
 
 // evaluation functions other than gates: every input snapshot equal before/after, generator untouched
-static void function_cases(ek::Set *S) {
+static void function_cases(ek::Set *S, const Epoch &kep) {
     uint64_t kh = hash_bk(S->bk, S->bkFFT); std::string gen0 = genstate(); uint64_t sx = 4242;
     const LweParams *ep = &S->tp->extracted_lweparams; int kN = S->k * N;
     LweSample *x = new_LweSample(S->lp), *o = new_LweSample(S->lp), *oe = new_LweSample(ep), *xe = new_LweSample(ep);
@@ -89,7 +102,9 @@ static void function_cases(ek::Set *S) {
         for (auto &f : fs) {
             std::string key = fmt("function/k=%d/l=%d/Bgbit=%d/%s/content=%d", S->k, S->l, S->Bgbit, f.name, rep);
             if (!want(key)) continue; current(key);
-            f.call();
+            { bool decomp_v = !strcmp(f.name, "tGswTorus32PolynomialDecompH"), decomp_acc = !strcmp(f.name, "tGswTLweDecompH") || !strcmp(f.name, "tGswExternProduct");
+              std::vector<const void *> fr = {x, x->a, xe, xe->a, bara.data(), v, acc, acc->a}; if (!decomp_v) fr.push_back(v->coefsT); if (!decomp_acc) for (int i = 0; i <= S->k; i++) fr.push_back(acc->a[i].coefsT);
+              Freeze fz(kep, fr); f.call(); }
             if (bytes(x, S->n) != bx) violation(key, std::string(f.name) + " modified its input LWE sample");
             if (bytes(xe, kN) != bxe) violation(key, std::string(f.name) + " modified its input (extracted-dimension) LWE sample");
             if (std::string((const char *)v->coefsT, N * 4) != bv) violation(key, std::string(f.name) + " modified the test polynomial / input polynomial");
@@ -103,21 +118,22 @@ static void function_cases(ek::Set *S) {
 
 int main(int argc, char **argv) {
     init(argc, argv);
+    warm_fft();   // the per-thread FFT state exists before any key epoch starts (its scratch buffers are written by every transform)
     // tiny exact parameter sets (full product) — several decomposition layouts incl. l = 1 and exact gadgets
     struct Cf { int n, k, l, Bgbit; } cfs[] = {{8, 1, 2, 10}, {8, 2, 3, 7}, {8, 1, 1, 16}, {8, 1, 4, 8}, {8, 2, 1, 10}};
     for (auto c : cfs) {
         std::string prefix = fmt("function/k=%d/l=%d/Bgbit=%d/", c.k, c.l, c.Bgbit);
-        if (take_group(prefix) && !deadline()) { ek::Set *S = ek::make(c.n, c.k, c.l, c.Bgbit, 8, 2, 71); function_cases(S); ek::destroy(S); }
+        if (take_group(prefix) && !deadline()) { Epoch ep; ep.from = seq_now(); ek::Set *S = ek::make(c.n, c.k, c.l, c.Bgbit, 8, 2, 71); ep.to = seq_now(); function_cases(S, ep); ek::destroy(S); }
     }
     {
         ek::Set *S = nullptr; Env E; TFheGateBootstrappingParameterSet *ps = nullptr; CK *ck = nullptr;
-        S = ek::make(8, 1, 2, 10, 8, 2, 73); ps = new TFheGateBootstrappingParameterSet(8, 2, S->lp, S->gp); ck = new CK(ps, S->bk, S->bkFFT);
-        E = {"tiny-n8", S->lp, ck, S->s, [=] { return hash_bk(S->bk, S->bkFFT); }, 8};
+        Epoch ep8; ep8.from = seq_now(); S = ek::make(8, 1, 2, 10, 8, 2, 73); ps = new TFheGateBootstrappingParameterSet(8, 2, S->lp, S->gp); ck = new CK(ps, S->bk, S->bkFFT); ep8.to = seq_now();
+        E = {ep8, "tiny-n8", S->lp, ck, S->s, [=] { return hash_bk(S->bk, S->bkFFT); }, 8};
         gate_cases(E, true);
     }
     {   // an odd dimension: the tails of the vectorised loops run
-        ek::Set *S = ek::make(7, 1, 3, 7, 8, 2, 75); TFheGateBootstrappingParameterSet *ps = new TFheGateBootstrappingParameterSet(8, 2, S->lp, S->gp); CK *ck = new CK(ps, S->bk, S->bkFFT);
-        Env E = {"tiny-n7", S->lp, ck, S->s, [=] { return hash_bk(S->bk, S->bkFFT); }, 7};
+        Epoch ep7; ep7.from = seq_now(); ek::Set *S = ek::make(7, 1, 3, 7, 8, 2, 75); TFheGateBootstrappingParameterSet *ps = new TFheGateBootstrappingParameterSet(8, 2, S->lp, S->gp); CK *ck = new CK(ps, S->bk, S->bkFFT); ep7.to = seq_now();
+        Env E = {ep7, "tiny-n7", S->lp, ck, S->s, [=] { return hash_bk(S->bk, S->bkFFT); }, 7};
         gate_cases(E, false);
     }
     if (opt("default", quick() ? "128" : "both") != "none") for (int lam : {128, 80}) { if (lam == 80 && quick()) continue;
@@ -127,8 +143,8 @@ int main(int argc, char **argv) {
         Env E; std::string nm = fmt("default-%d", lam); char *nmc = strdup(nm.c_str());
         uint64_t save = S().case_counter; bool any = false; { for (const Gate &g : table()) { (void)g; } }
         (void)save; (void)any;
-        ps = new_default_gate_bootstrapping_parameters(lam); sk = new_random_gate_bootstrapping_secret_keyset(ps);
-        E = {nmc, ps->in_out_params, &sk->cloud, sk->lwe_key, [=] { return hash_bk(sk->cloud.bk, sk->cloud.bkFFT); }, ps->in_out_params->n};
+        Epoch epd; epd.from = seq_now(); ps = new_default_gate_bootstrapping_parameters(lam); sk = new_random_gate_bootstrapping_secret_keyset(ps); epd.to = seq_now();
+        E = {epd, nmc, ps->in_out_params, &sk->cloud, sk->lwe_key, [=] { return hash_bk(sk->cloud.bk, sk->cloud.bkFFT); }, ps->in_out_params->n};
         gate_cases(E, false);
     }
     sample("gate/tiny-n8/MUX/row=5/alias=ARR: result object is also inputs b and c; ciphertext bytes must equal the call with distinct objects; inputs, whole cloud key (deep hash incl. FFT image) and generator unchanged");
